@@ -25,7 +25,7 @@ def sk(t):
     return re.sub(r'#\d+\.\d+', '', show(t, -60))
 
 
-def run(facts, rep):
+def run(facts, rep, mixing_rule=False):
     st = facts.bodies.get(S + 'diag_normalize_step')
     dn = facts.bodies.get(S + 'diag_normalize')
     if not (st and dn):
@@ -62,7 +62,9 @@ def run(facts, rep):
         else:
             n_false += 1
             rep.ok('E21.N1-true-means-divides', 'SnfCalc::diag_normalize_step|answers false [%s]' % (', '.join(muts) or 'unmodified'), 'redo requested')
-    rep.floor('E21.N1 return paths of diag_normalize_step', n_true + n_false, 3)
+    if mixing_rule:
+        check_mixing(st, rep, X, Y)
+    rep.floor('E21.N1 return paths of diag_normalize_step', n_true + n_false, 2 if mixing_rule else 3)
     if n_true == 0:
         rep.indet('E21.N1: diag_normalize_step never answers true')
     # ---- N2 on the CFG
@@ -193,3 +195,31 @@ def run(facts, rep):
         rep.violation('E21.N3-scan-range', inst, known_bad + ' (range %s)' % rng, where=dn.where())
     else:
         rep.indet('E21.N3: scan range outside the recognised fragment: range %s, index %s, r from %s' % (rng, idx, flt and flt[1]))
+
+
+def check_mixing(st, rep, X, Y):
+    """N4 (C03 only): two diagonal entries are *mixed* by a 2x2 elementary step only when neither divides the other; when
+    d[i+1] | d[i] they are exchanged by a permutation. A permutation keeps every homology generator supported on one basis
+    vector of the previous step, a mixing step adds a (homologically trivial) multiple of the neighbour: the splitting of
+    the total homology into bidegrees reads the q-degree off the generator (E23 G1) and files a mixed torsion generator in
+    the wrong bidegree. (Not a condition for a valid Smith normal form - hence not applied under C09.)"""
+    n = 0
+    for p in SymEx(st, max_paths=20000).run():
+        if p.end != 'return':
+            continue
+        mix = [e.name.split('::')[-1] for e in p.calls() if e.name.split('::')[-1] in ('left_elementary', 'right_elementary', 'elementary', 'add_row_to', 'add_col_to')]
+        if not mix:
+            continue
+        n += 1
+        tests = {sk(e.term): e.value for e in p.branches() if sk(e.term).startswith('divides(')}
+        a = tests.get('divides(%s, %s)' % (X, Y))
+        b = tests.get('divides(%s, %s)' % (Y, X))
+        inst = 'SnfCalc::diag_normalize_step|entries are mixed only when neither divides the other'
+        if a == 0 and b == 0:
+            rep.ok('E21.N4-permute-when-nested', inst, 'gcd step under x !| y and y !| x')
+        else:
+            rep.violation('E21.N4-permute-when-nested', inst,
+                          'the 2x2 gcd step (%s) is reached without the test d[i+1].divides(d[i]) having failed: nested entries (y | x) are mixed instead of swapped, so a torsion generator of the total homology picks up a multiple of its neighbour and is filed under the wrong q-degree by collect_gen_info' % ', '.join(mix),
+                          where=st.where())
+    if n == 0:
+        rep.indet('E21.N4: no mixing step found in diag_normalize_step')
